@@ -311,7 +311,8 @@ impl BitRepr for Frame {
                 bytebuf.resize(frame_sink.len() >> 3, 0u8);
                 frame_sink.write_to_byte_slice(&mut *bytebuf);
 
-                dest.write_bytes_aligned(&*bytebuf).unwrap();
+                dest.write_bytes_aligned(&*bytebuf)
+                    .map_err(OutputError::<S>::from_sink)?;
 
                 dest.write(FRAME_CRC.checksum(&*bytebuf))
                     .map_err(OutputError::<S>::from_sink)
